@@ -80,6 +80,15 @@ struct RealEval {
     const Point *pt;
     NumCfg cfg;
     long nodes = 0;
+    // "what a reader of a 15-significant-digit decimal literal sees": RealDouble leaves and the numerator /
+    // denominator of Rational leaves are rounded through "%.15g" (used only to ATTRIBUTE a mismatch, never to excuse it)
+    bool literal15 = false;
+    static double through15(double d)
+    {
+        char b[64];
+        snprintf(b, sizeof b, "%.15g", d);
+        return strtod(b, nullptr);
+    }
 
     rq U() const
     {
@@ -227,12 +236,18 @@ struct RealEval {
         switch (t) {
             case SYMENGINE_INTEGER:
                 return leaf(q_from_int(down_cast<const Integer &>(e).as_integer_class()), 0);
-            case SYMENGINE_RATIONAL:
-                return leaf(q_from_rat(down_cast<const Rational &>(e).as_rational_class()), 0);
+            case SYMENGINE_RATIONAL: {
+                const rational_class &q = down_cast<const Rational &>(e).as_rational_class();
+                if (literal15)
+                    return leaf((rq)through15((double)q_from_int(get_num(q))) / (rq)through15((double)q_from_int(get_den(q))), 1);
+                return leaf(q_from_rat(q), 0);
+            }
             case SYMENGINE_REAL_DOUBLE: {
                 double d = down_cast<const RealDouble &>(e).i;
                 if (!std::isfinite(d))
                     return nv_fail("nonfinite-leaf");
+                if (literal15)
+                    d = through15(d);
                 return leaf((rq)d, 0);
             }
             case SYMENGINE_SYMBOL:
@@ -620,11 +635,12 @@ struct RealEval {
     }
 };
 
-inline NV real_eval(const Basic &e, const Point &p, const NumCfg &cfg)
+inline NV real_eval(const Basic &e, const Point &p, const NumCfg &cfg, bool literal15 = false)
 {
     RealEval E;
     E.pt = &p;
     E.cfg = cfg;
+    E.literal15 = literal15;
     NV r = E.ev(e);
     if (r.ok && !finiteq(r.v)) {
         r.ok = false;
@@ -682,8 +698,10 @@ inline std::string skel(const Basic &e, int depth = 2)
     std::string t = type_code_name(e.get_type_code());
     if (is_a<Pow>(e)) {
         const Pow &p = down_cast<const Pow &>(e);
-        if (is_a_Number(*p.get_exp()))
+        if (is_a<Integer>(*p.get_exp()) || is_a<Rational>(*p.get_exp()))
             t += "[" + p.get_exp()->__str__() + "]";
+        else if (is_a_Number(*p.get_exp()))
+            t += "[" + type_code_name(p.get_exp()->get_type_code()) + "]";
     }
     if (depth <= 0 || is_a_Atom(e))
         return t;
